@@ -33,7 +33,8 @@ theorem fireOne_u (sc : Scripts) {w : World} (hw : WheelInv w) (hs : Sim true w)
     simp only [List.length_cons] at this
     omega
   have hdrop : UInv 0 (setSlot w (slotOf w.cot) rest) := hu.congr rfl rfl rfl (by omega)
-  unfold fireOne
+  rw [fireOne_eq_spec]
+  unfold fireOneSpec
   by_cases hdead : isDead (setSlot w (slotOf w.cot) rest) cop.c.owner = true
   · rw [if_pos hdead]
     split
